@@ -29,6 +29,21 @@ type Case struct {
 	Segs      []int           `json:"segs,omitempty"`
 	TLS       bool            `json:"tls,omitempty"` // authentication happens inside a TLS session
 	OptSeed   int             `json:"opt_seed,omitempty"`
+	// Neighbour: another client reaches its own password prompt and stays there, "before" this
+	// connection's start-up packet or "between" its start-up packet and its password message. It
+	// announces the accepted user when this connection does not, and a stranger otherwise: whose
+	// credentials are checked must not depend on who else is logging in.
+	Neighbour string `json:"neighbour,omitempty"`
+}
+
+func (c Case) neighbour(env *script.Env) {
+	user := c.Auth.User
+	if !c.NoUser && c.User == c.Auth.User {
+		user = c.Auth.User + "-stranger"
+	}
+	n := env.NewSess()
+	n.C.Send(pgwire.Startup([][2]string{{"user", user}, {"database", c.DB}}))
+	n.C.WaitIdle(script.Guard)
 }
 
 func table() script.Table {
@@ -128,6 +143,21 @@ func Run(c Case) core.Result {
 	}
 	if c.Pipelined {
 		first = append(first, cont...)
+	}
+	switch c.Neighbour {
+	case "before":
+		c.neighbour(env)
+		res.Labels = append(res.Labels, "neighbour-at-prompt")
+	case "between":
+		n := len(pgwire.Startup(pairs))
+		s.C.Send(first[:n])
+		first = first[n:]
+		if s.C.WaitIdle(script.Guard) == memnet.Timeout {
+			res.Inconclusive = "no quiescence after the start-up packet"
+			return res
+		}
+		c.neighbour(env)
+		res.Labels = append(res.Labels, "neighbour-at-prompt")
 	}
 	s.C.Send(first)
 	if c.PwKind == "truncated" || c.PwKind == "eof" {
